@@ -58,9 +58,11 @@ func (s *Server) cmdScan(msg *Message) (res resp.Value, err error) {
 		if sw.output == outputCount && len(sw.wheres) == 0 &&
 			len(sw.whereins) == 0 && len(sw.whereevals) == 0 &&
 			sw.globEverything {
-			count := sw.col.Count() - int(args.cursor)
-			if count < 0 {
-				count = 0
+			// (a cursor beyond the collection, up to the largest 64-bit
+			// value, leaves nothing to count)
+			count := 0
+			if n := sw.col.Count(); uint64(n) > args.cursor {
+				count = n - int(args.cursor)
 			}
 			if uint64(count) > sw.limit {
 				// COUNT with a LIMIT reports what the same query would send
